@@ -39,6 +39,7 @@ type UEntry struct {
 	NsObj      int  // -1 = None
 	Crd        int  // -1 = None
 	FInv       bool // identifier fails field validation (namespace on a cluster-scoped kind / none on a namespaced one)
+	KeepVar    int  // spelling of the keep attribute (index into keepVariants; 0 = by parity of the id)
 }
 
 type Universe []UEntry
@@ -675,6 +676,9 @@ func (u Universe) Text() string {
 			ns += "/"
 		}
 		s[i] = fmt.Sprintf("%d=%s:%s%s", i, e.Meta.GroupKind.Kind, ns, e.Meta.Name)
+		if e.KeepVar > 0 {
+			s[i] += fmt.Sprintf("~k%d", e.KeepVar)
+		}
 	}
 	return strings.Join(s, " ")
 }
